@@ -223,6 +223,7 @@ _C03_SCEN = [  # (scenario, threads, quick cases, thorough cases)
     ('future_mt', 5, 12000, 600000), ('future_async_mt', 5, 12000, 600000), ('mutex_mt', 4, 10000, 500000), ('mutex_pool_handoff', 1, 20000, 400000),
     ('queue_mt', 5, 8000, 400000), ('lqueue_mt', 5, 8000, 400000), ('shared_future_mt', 4, 10000, 500000),
     ('scheduler_threads', 1, 6000, 200000), ('scheduler_stop_race', 1, 6000, 200000), ('pool_mt', 4, 12000, 400000), ('publisher_mt', 4, 8000, 400000), ('signal_mt', 4, 8000, 400000), ('generator_programs', 2, 6000, 300000), ('aggregator_programs', 2, 4000, 200000), ('adapter_matrix', 2, 9000, 400000), ('storage_mt', 2, 12000, 500000), ('async_start_race', 2, 10000, 400000), ('queue_unblock_contended', 4, 6000, 300000), ('publisher_two_publishers', 4, 8000, 400000),
+    ('pool_nested', 1, 8000, 300000), ('frame_owned_parties', 1, 8000, 300000), ('async_programs', 1, 6000, 300000),
 ]
 PROPS['C03'] = {
     'technique': 'ThreadSanitizer (happens-before race detection) over the shared multi-threaded scenario library; guarded fence annotation',
